@@ -1712,4 +1712,5 @@ func runC14(r *Run) {
 	r.RuleDoc("C14.R4", "status.canary is decided on every path to the status write (no stale canary survives, e.g. after the canary strategy is removed)")
 	r.Floor("C14.R4", 1)
 	c14CanaryAlwaysDecided(r, "C14.R4")
+	c14Imports(r)
 }
